@@ -30,6 +30,7 @@ type BankKnobs struct {
 	PFault     int
 	PPanic     int
 	PSysClock  int // keep dig's system clock (Runtime only bounded)
+	PErrPtr    int // prefer an entry whose error result has a concrete type
 	PErr2      int // prefer an entry with two error results
 	PRepeat    int // allow a second instance of an already used entry (same code pointer)
 	PDefer     int
@@ -95,6 +96,18 @@ func (g *bankGen) pickEntry(kind string, s int, lbl string) (int, bool) {
 		}
 		if len(usedL) > 0 {
 			return usedL[g.pick(len(usedL), lbl+"ru")], true
+		}
+	}
+	if kind != "invoke" && g.pct(g.bk.PErrPtr, lbl+"errptr") {
+		// functions whose error result has a concrete type (always fail)
+		var ptr []int
+		for _, i := range all {
+			if BankSpecs[i].ErrT == "ptr" {
+				ptr = append(ptr, i)
+			}
+		}
+		if len(ptr) > 0 {
+			return ptr[g.pick(len(ptr), lbl+"ep")], true
 		}
 	}
 	if kind != "invoke" && g.pct(g.bk.PErr2, lbl+"err2") {
